@@ -77,6 +77,18 @@ func TestWriteReplays(t *testing.T) {
 	write("05-consume-extension.json", "consume", PScript{Cfg: pct, Kind: "extension", Signal: sig.Logs, FreezeMS: 3, Phases: []Phase{
 		{First: 650 * mib, Post: 650 * mib}, {First: 650*mib - 1, Post: 0}, {First: 900 * mib, Post: 649 * mib}, {First: 900 * mib, Post: 651 * mib},
 	}})
+	// both kinds set.  07: the fixed pair is the effective one and is malformed (spike > limit) while the percentage
+	// pair is fine: Validate must reject it (if it were accepted, limit - spike would wrap around and the limiter would
+	// never refuse).  08: both pairs fine, the fixed one wins: soft 80 MiB / hard 100 MiB, not 40 % / 50 % of 1 GiB.
+	write("07-validate-both-kinds-mib-spike-above-limit.json", "validate", VScript{
+		Cfg:   Cfg{LimitMiB: 100, SpikeMiB: 150, LimitPct: 50, SpikePct: 10, TotalMem: 1 << 30, SoftGCms: hourMS, HardGCms: hourMS},
+		Steps: []Step{{First: 500 * mib, Post: 500 * mib}, {First: 0, Post: 0}},
+	})
+	write("08-validate-both-kinds-fixed-wins.json", "validate", VScript{
+		Cfg: Cfg{LimitMiB: 100, SpikeMiB: 20, LimitPct: 50, SpikePct: 10, TotalMem: 1 << 30, SoftGCms: hourMS, HardGCms: 0},
+		Steps: []Step{{First: 80*mib - 1, Post: 0}, {First: 80 * mib, Post: 0}, {First: 100 * mib, Post: 80*mib - 1}, {First: 400 * mib, Post: 100 * mib},
+			{First: 79 * mib, Post: 0}, {First: 512 * mib, Post: 0}},
+	})
 	write("06-refcount-three-processors.json", "refcount", RCScript{Cfg: readme, Signals: []string{sig.Logs, sig.Metrics, sig.Logs}, FreezeMS: 4, Unstarted: 1, Ops: []Op{
 		{Kind: "start", Proc: 0, On: 0, Probe: &Phase{First: soft, Post: 0, Calls: []Call{{Payload: logs, Downstream: "ok"}}}},
 		{Kind: "start", Proc: 1},
